@@ -134,24 +134,39 @@ E0 == <<>>
 EA == <<[ip |-> <<49, 48, 46, 48, 46, 48, 46, 48>>, negated |-> FALSE, subnet |-> 8, comment |-> <<>>]>>
 EB == <<[ip |-> <<49, 48, 46, 48, 46, 48, 46, 48>>, negated |-> TRUE, subnet |-> 16, comment |-> <<>>],
         [ip |-> <<50, 48, 48, 49, 58, 100, 98, 56, 58, 58, 49>>, negated |-> FALSE, subnet |-> -1, comment |-> <<122, NL, 122>>]>>
-MkDict(nm, its) == [kind |-> "dict", name |-> nm, items |-> its]
+MkDict(nm, its) == [kind |-> "dict", name |-> nm, items |-> its, wo |-> FALSE]
+\* a write-only (private) dictionary: its items cannot be read (the API refuses), it is declared as an empty table
+MkDictWO(nm) == [kind |-> "dict", name |-> nm, items |-> I0, wo |-> TRUE]
 MkAcl(nm, es) == [kind |-> "acl", name |-> nm, entries |-> es]
 Svc(id, ds, as) == [id |-> id, dicts |-> ds, acls |-> as]
 ContentPairs == {<<I0, IA, E0, EA>>, <<IA, I0, EA, E0>>, <<IA, IB, EA, EB>>, <<IB, IA, EB, EA>>, <<IA, IA, EA, EA>>}
-Multis ==
+\* where the resources sit in the Terraform plan: everything in the root module, in a child module, in a nested
+\* child module, or split (service in the root, dictionary items in a child, ACL entries in a nested child module)
+Places == {"root", "child", "nested", "split"}
+MultisWO ==
+  \* attributes that change what is rendered: a write-only dictionary first / in the middle / last among readable ones
+  {[kind |-> "multi", late |-> 1, place |-> pl,
+    services |-> <<Svc("s1", ds, <<MkAcl(<<97>>, EA), MkAcl(<<98>>, E0)>>)>>] :
+     pl \in {"root", "nested"},
+     ds \in {<<MkDictWO(<<119>>), MkDict(<<100>>, IA), MkDict(<<101>>, IB)>>,
+             <<MkDict(<<100>>, IA), MkDictWO(<<119>>), MkDict(<<101>>, IB)>>,
+             <<MkDict(<<100>>, IA), MkDict(<<101>>, IB), MkDictWO(<<119>>)>>,
+             <<MkDictWO(<<119>>), MkDict(<<100>>, I0), MkDict(<<101>>, IA)>>}}
+Multis0 ==
   \* one service, two dictionaries and two ACLs
-  {[kind |-> "multi", late |-> l,
+  {[kind |-> "multi", late |-> l, place |-> "root",
     services |-> <<Svc("s1", <<MkDict(<<100>>, c[1]), MkDict(<<101>>, c[2])>>, <<MkAcl(<<97>>, c[3]), MkAcl(<<98>>, c[4])>>)>>] :
      c \in ContentPairs, l \in {1, 2}}
   \* two services in one plan, resource names equal or different
-  \cup {[kind |-> "multi", late |-> 1,
+  \cup {[kind |-> "multi", late |-> 1, place |-> "root",
          services |-> <<Svc("s1", <<MkDict(<<100>>, c[1])>>, <<MkAcl(<<97>>, c[3])>>),
                         Svc("s2", <<MkDict(n[1], c[2])>>, <<MkAcl(n[2], c[4])>>)>>] :
           c \in ContentPairs, n \in {<<<<100>>, <<97>>>>, <<<<101>>, <<98>>>>}}
   \* two services, two resources each, names crossed
-  \cup {[kind |-> "multi", late |-> l,
+  \cup {[kind |-> "multi", late |-> l, place |-> "root",
          services |-> <<Svc("s1", <<MkDict(<<100>>, IA), MkDict(<<101>>, I0)>>, <<MkAcl(<<97>>, EA), MkAcl(<<98>>, EB)>>),
                         Svc("s2", <<MkDict(<<101>>, IB), MkDict(<<100>>, IB)>>, <<MkAcl(<<98>>, E0), MkAcl(<<97>>, EB)>>)>>] : l \in {1, 2}}
+Multis == {[m EXCEPT !.place = pl] : m \in Multis0, pl \in Places} \cup MultisWO
 Cases == Dicts \cup Acls \cup Backends \cup Directors \cup Multis
 
 S(str) == [lit |-> str]          \* a literal piece of template text (the harness concatenates pieces)
